@@ -1,9 +1,64 @@
+import RsslVerif.Model.Progress
 import RsslVerif.Driver.Util
-/-! Line-protocol front end of the C08 model (stub until the model is built). -/
+/-! Line-protocol front end of the C08 models (TokenStream bookkeeping, ConditionChain). -/
 namespace RsslVerif.Driver.C08
+open RsslVerif.Model.Progress RsslVerif.Driver
+
+/-- `3,1e,2` -> [(3,false),(1,true),(2,false)] : raw token lengths produced by the real single-token lexer -/
+def parseScript (s : String) : Option (List (Nat × Bool)) :=
+  if s == "-" then some [] else
+  sequenceOpt ((s.splitOn ",").map fun item =>
+    let endl := item.endsWith "e"
+    let num := if endl then (item.dropEnd 1).toString else item
+    num.toNat?.map (·, endl))
+
+/-- the single-token lexer replayed from the script: at offset `off` it returns the token that starts there -/
+def scriptLex (script : List (Nat × Bool)) : Lex := fun off =>
+  let rec go (pos : Nat) : List (Nat × Bool) → Option (Nat × Bool)
+    | [] => none
+    | (l, e) :: r => if pos == off then some (pos + l, e) else go (pos + l) r
+  go 0 script
+
+def showSpan (sp : Span) : String :=
+  toString sp.start ++ "-" ++ toString sp.stop ++ (if sp.endl then "e" else "")
+
+def parseDirs (s : String) : List Dir :=
+  let rec go (k : Nat) : List Char → List Dir
+    | [] => []
+    | c :: r =>
+      (match c with
+       | 'i' => Dir.ifD true
+       | 'I' => Dir.ifD false
+       | 'd' => Dir.ifD true
+       | 'D' => Dir.ifD false
+       | 'l' => Dir.elif true
+       | 'L' => Dir.elif false
+       | 'e' => Dir.els
+       | 'n' => Dir.endif
+       | _ => Dir.text k) :: go (k + 1) r
+  go 0 s.toList
 
 def handle (op : String) (args : List String) : String :=
-  let _ := (op, args)
-  "unsupported-op"
+  match op, args with
+  | "C08.lex", [bytesHex, script] =>
+    if script == "!" then "unsupported: the single-token lexer failed (C10 models which bytes do)" else
+    match parseScript script with
+    | none => "bad-request"
+    | some sc =>
+      let len := bytesHex.length / 2
+      match readToEnd (scriptLex sc) (len + 2) (Stream.new len) [] with
+      | some (.tokens l) => " ".intercalate (l.map showSpan)
+      | some .lexError => "model: lexer error"
+      | some .panicAssertEndline => "panic:assert !last_was_endline"
+      | some .panicNoProgress => "panic:no progress"
+      | none => "model: out of fuel"
+  | "C08.cond", [letters] =>
+    match runFile (parseDirs letters) with
+    | .ok ids => "ok:" ++ ",".intercalate (ids.map toString)
+    | .error .elseNotMatched => "err:else-not-matched"
+    | .error .endIfNotMatched => "err:endif-not-matched"
+    | .error .notFinished => "err:not-finished"
+  | "C08.compile", _ => "unsupported: whole-compiler totality is observed by the supervised run, not predicted"
+  | _, _ => "unsupported-op"
 
 end RsslVerif.Driver.C08
